@@ -282,7 +282,34 @@ func drawConstructedSource(r *sim.Run) *objSource {
 	var b mp4.Box
 	var err error
 	name := ""
-	switch t.Draw(17) {
+	switch t.Draw(18) {
+	case 17:
+		// a movie fragment box put together from constructed children: 1-2 track fragments, tfhd with explicit
+		// base_data_offset or default-base-is-moof, 1-2 runs each, data offsets on either side of the base (the field is
+		// signed: media data may precede the position the base points to)
+		moof := &mp4.MoofBox{}
+		_ = moof.AddChild(mp4.CreateMfhd(uint32(1 + t.Draw(1000))))
+		nTraf := 1 + t.Draw(2)
+		for ti := 0; ti < nTraf; ti++ {
+			traf := &mp4.TrafBox{}
+			tfhd := mp4.CreateTfhd(uint32(ti + 1))
+			if t.Bool() {
+				tfhd.Flags = 0x000001
+				tfhd.BaseDataOffset = uint64(2000 + t.Draw(100000))
+			}
+			_ = traf.AddChild(tfhd)
+			_ = traf.AddChild(mp4.CreateTfdt(uint64(t.Draw(1 << 20))))
+			for k := 1 + t.Draw(2); k > 0; k-- {
+				tr := mp4.CreateTrun(0)
+				for i := 1 + t.Draw(3); i > 0; i-- {
+					tr.AddSample(mp4.NewSample(flagPoolObj[t.Draw(len(flagPoolObj))], uint32(t.Draw(5000)), uint32(t.Draw(500)), int32(t.Draw(3000))-1000))
+				}
+				tr.DataOffset = int32(t.Draw(3000)) - 1000
+				_ = traf.AddChild(tr)
+			}
+			_ = moof.AddChild(traf)
+		}
+		b, name = moof, fmt.Sprintf("MoofBox{%d trafs, first tfhd flags %#x, first data_offset %d}", nTraf, moof.Traf.Tfhd.Flags, moof.Traf.Trun.DataOffset)
 	case 16:
 		// track encryption boxes over versions, protection flag, per-sample IV sizes and constant IVs
 		kid := mp4.UUID(fill(16))
